@@ -5,6 +5,7 @@ Shape-bounded CrossHair harnesses: small ints select a declaration shape; the RE
 are read back from the generated text and compared with what the declaration says.
 """
 import os
+import re
 
 from harness import pipe, readers
 from harness.shapes import (T, itext, cpp, ARG_POOL, RET_POOL, mk_args, args_itext, ret_itext, PRELUDE)
@@ -374,6 +375,55 @@ def c04_kf_parent_qualifiers(which: int) -> bool:
     return ok
 
 
+def subst_needed(t):
+    const, nss, name, args, suf = t
+    return (name == "This" and not nss) or any(subst_needed(x) for x in args)
+
+
+def c04_all_type_spellings(kind: int, r: int, a: int, role: int) -> bool:
+    """
+    Every type expression of the small algebra of C01 (128 leaves; 48 templated roots over them) as the first parameter
+    and as the return type of a method / static method / free function: the wrapper lambda declares the parameter with
+    the C++ spelling of the declared type (`*` = std::shared_ptr, `@` = raw pointer, `&`, const kept, template arguments
+    spelled the same way at every depth) and names it in py::arg.
+    pre: 0 <= kind <= 1 and 0 <= r < 48 and 0 <= a < 128 and 0 <= role <= 2
+    pre: kind == 0 or r % (4 if THOROUGH else 16) == a % (4 if THOROUGH else 16)
+    post: _
+    """
+    from harness import c01_tree as A
+    from harness.shapes import cpp as ref_cpp, itext
+    kind, a = pick(kind, 0, 2), pick(a, 0, A.NA_LEAF)
+    if kind:
+        r = pick(r, 0, A.NA_ROOT)
+    role = pick(role, 0, 3) if THOROUGH else (a + r) % 3
+    ok = True
+    with concrete():
+        ty = A.a_leaf(a) if kind == 0 else A.a_root(r, [A.a_leaf(a), A.a_leaf((a * 7 + r) % A.NA_LEAF)][:1 + (a + r) % 2])
+        if A.a_allowed(ty, "argument") and not (subst_needed(ty) and role == 2):          # `This` means nothing in a free function
+            decl = ["class Cls { Cls(); void doIt(%s a, int z) const; };", "class Cls { Cls(); static void doIt(%s a, int z); };", "void doIt(%s a, int z);"][role] % itext(ty)
+            text = PRELUDE + "namespace top { " + decl + " }"
+            try:
+                body = pipe.pybind_body(text)
+            except Exception as ex:
+                body = "raised %r" % ex
+            def subst_this(t):             # only the bare name `This` designates the class; `a::This` is some type called This
+                const, nss, name, args, suf = t
+                if name == "This" and not nss:
+                    return (const, ("top",), "Cls", (), suf)
+                return (const, nss, name, tuple(subst_this(x) for x in args), suf)
+            want = ref_cpp(subst_this(ty))
+            lam = re.search(r"\[\]\((.*?)\)\{", body)
+            params = readers.split_top(lam.group(1)) if lam else []
+            off = 1 if role == 0 else 0
+            got = params[off].rsplit(" ", 1)[0].strip() if len(params) > off else None
+            if got != want:
+                ok = _fail(text=text, parameter=got, declared=want, body=body[-400:])
+            elif 'py::arg("a"), py::arg("z")' not in body:
+                ok = _fail(text=text, problem="keyword arguments", body=body[-300:])
+    reached({"kind": kind, "a": a, "r": r, "role": role} if not ok else None)
+    return ok
+
+
 def c04_argname(name: str) -> bool:
     """
     Argument names are copied verbatim into the lambda parameter, the call and py::arg (one symbolic spelling).
@@ -418,6 +468,8 @@ def conds(tier):
                 bounds="4 base forms x 0-3 properties x 0-2 class enums x {plain, enumerated template} x 3 operator sets%s" % (" x virtual x namespace depth 0-2" if not q else "; virtual / namespace depth derived")),
         xh.Cond(M, "c04_class_typedef", t(300, 1500), path_timeout=60, kind=sb, examples=["base=0, nprops=1, nenums=1, place=1, ops=0, nsdepth=0", "base=2, nprops=2, nenums=2, place=0, ops=1, nsdepth=2", "base=3, nprops=3, nenums=1, place=1, ops=2, nsdepth=2"],
                 bounds="typedef'd instantiation in the template's namespace / in a nested namespace x 4 base forms x 0-2 class enums x 3 operator sets x namespace depth 0-2%s" % (" x 0-3 properties" if not q else "; properties derived")),
+        xh.Cond(M, "c04_all_type_spellings", t(420, 2400), path_timeout=60, kind=sb, examples=["kind=0, r=0, a=43, role=0", "kind=1, r=11, a=27, role=1", "kind=1, r=47, a=127, role=2", "kind=0, r=0, a=90, role=2"],
+                bounds="every leaf of the C01 type algebra (128) and %s templated roots over it as first parameter of a method / static / function (%s)" % ("every fourth (root, leaf) pair of the 48 x 128" if not q else "every sixteenth (root, leaf) pair of the 48 x 128", "3 roles" if not q else "role derived")),
         xh.Cond(M, "c04_kf_parent_qualifiers", 60, path_timeout=60, kind=sb, bounds="witness of a listed known finding", needs_confirm=False),
         xh.Cond(M, "c04_argname", t(120, 600), examples=["name='pose'"], bounds="all argument names of length <= 6"),
     ]
